@@ -13,7 +13,7 @@ RULE = ('case = one (reference, spelling) pair probed through AnsiString(\'x\', 
 ASSUMPTIONS = ['AnsiString(\'x\', form).ansi_settings_at(0) and str() are the observation',
                'bool as int, color256(n) outside 0..255, colour groups split across nesting levels are grey']
 MIN_EVAL = 2000
-CASES = {'quick': 40, 'thorough': 1200}
+CASES = {'quick': 320, 'thorough': 7200}
 EXHAUSTIVE = False
 
 
